@@ -31,103 +31,181 @@ class Skip(Exception):
     pass
 
 
+def one(v):
+    """the single number of a one-element list"""
+    if len(v) != 1 or isinstance(v[0], str):
+        raise Skip()
+    return v[0]
+
+
 def ev(t, env):
+    """value of a tree: a list of items (numbers in f32, strings); scalars are lists of one"""
     op = t["op"]
     if op == "num":
-        return f32(float(t["v"]))
+        return [f32(float(t["v"]))]
     if op == "var":
-        return f32(float(env[t["v"]]))
+        return [f32(float(env[t["v"]]))]
+    if op == "str":
+        return [t["v"][1:-1]]
     if op == "neg":
-        return -ev(t["a"][0], env)
+        return [-one(ev(t["a"][0], env))]
     if op == "bin":
-        a, b = ev(t["a"][0], env), ev(t["a"][1], env)
+        a, b = one(ev(t["a"][0], env)), one(ev(t["a"][1], env))
         o = t["v"]
         if o == "+":
-            return f32(a + b)
+            return [f32(a + b)]
         if o == "-":
-            return f32(a - b)
+            return [f32(a - b)]
         if o == "*":
-            return f32(a * b)
+            return [f32(a * b)]
         if o == "/":
             if b == 0:
                 raise Skip()
-            return f32(a / b)
+            return [f32(a / b)]
         if o == "%":
             if b == 0:
                 raise Skip()
             r = math.fmod(a, b)
             if r < 0:
                 r += abs(b)
-            return f32(r)
+            return [f32(r)]
         if o in ("lt", "gt", "le", "ge", "eq", "ne"):
-            return 1.0 if {"lt": a < b, "gt": a > b, "le": a <= b, "ge": a >= b, "eq": a == b, "ne": a != b}[o] else 0.0
+            return [1.0 if {"lt": a < b, "gt": a > b, "le": a <= b, "ge": a >= b, "eq": a == b, "ne": a != b}[o] else 0.0]
         if o == "and":
-            return 1.0 if (a != 0 and b != 0) else 0.0
+            return [1.0 if (a != 0 and b != 0) else 0.0]
         if o == "or":
-            return 1.0 if (a != 0 or b != 0) else 0.0
+            return [1.0 if (a != 0 or b != 0) else 0.0]
         if o == "xor":
-            return 1.0 if ((a != 0) != (b != 0)) else 0.0
+            return [1.0 if ((a != 0) != (b != 0)) else 0.0]
     if op == "call":
         f = t["v"]
-        x = [ev(a, env) for a in t["a"]]
+        x = [item for a in t["a"] for item in ev(a, env)]    # argument lists flatten
+        if f == "list":
+            return x
         try:
-            if f == "abs":
-                return abs(x[0])
-            if f == "ceil":
-                return float(math.ceil(x[0]))
-            if f == "floor":
-                return float(math.floor(x[0]))
-            if f == "fract":
-                return f32(x[0] - math.trunc(x[0]))
-            if f == "sign":
-                return 0.0 if x[0] == 0 else (1.0 if x[0] > 0 else -1.0)
-            if f == "sqrt":
-                if x[0] < 0:
-                    raise Skip()
-                return f32(math.sqrt(x[0]))
-            if f == "min":
-                return min(x)
-            if f == "max":
-                return max(x)
-            if f == "clamp":
-                if x[1] > x[2]:
-                    raise Skip()
-                return max(x[1], min(x[2], x[0]))
-            if f == "mix":
-                return f32(x[0] * (1 - x[2]) + x[1] * x[2])
-            if f == "pow":
-                if x[0] < 0 and x[1] != int(x[1]):
-                    raise Skip()
-                return f32(math.pow(x[0], x[1]))
-            if f == "if":
-                return x[1] if x[0] != 0 else x[2]
-            if f == "not":
-                return 1.0 if x[0] == 0 else 0.0
-            if f == "eq":
-                return 1.0 if x[0] == x[1] else 0.0
-            if f == "lt":
-                return 1.0 if x[0] < x[1] else 0.0
-            if f == "and":
-                return 1.0 if (x[0] != 0 and x[1] != 0) else 0.0
-            if f == "or":
-                return 1.0 if (x[0] != 0 or x[1] != 0) else 0.0
-            if f == "sin":
-                return f32(math.sin(math.radians(x[0])))
-            if f == "cos":
-                return f32(math.cos(math.radians(x[0])))
-            if f == "exp":
-                return f32(math.exp(x[0]))
-            if f == "log":
-                if x[0] <= 0:
-                    raise Skip()
-                return f32(math.log(x[0]))
-            if f == "sum":
-                return f32(sum(x))
-            if f == "count":
-                return float(len(x))
+            return call(f, x)
         except (OverflowError, ValueError, ZeroDivisionError):
             raise Skip()
     raise ValueError(t)
+
+
+def call(f, x):
+    if f in ("split", "splitw", "trim", "join"):
+        if not all(isinstance(v, str) for v in x):
+            raise Skip()
+        if f == "split":
+            return x[1].split(x[0])
+        if f == "splitw":
+            return x[0].split()
+        if f == "trim":
+            return [x[0].strip()]
+        return [x[0].join(x[1:])]
+    if f in ("head", "tail", "empty", "count"):
+        return {"head": x[:1], "tail": x[1:], "empty": [1.0 if not x else 0.0], "count": [float(len(x))]}[f]
+    if any(isinstance(v, str) for v in x):
+        raise Skip()
+    b = lambda c: [1.0 if c else 0.0]
+    n = len(x)
+    if f == "abs":
+        return [abs(x[0])]
+    if f == "ceil":
+        return [float(math.ceil(x[0]))]
+    if f == "floor":
+        return [float(math.floor(x[0]))]
+    if f == "fract":
+        return [f32(x[0] - math.trunc(x[0]))]
+    if f == "sign":
+        return [0.0 if x[0] == 0 else (1.0 if x[0] > 0 else -1.0)]
+    if f == "sqrt":
+        if x[0] < 0:
+            raise Skip()
+        return [f32(math.sqrt(x[0]))]
+    if f == "log":
+        if x[0] <= 0:
+            raise Skip()
+        return [f32(math.log(x[0]))]
+    if f == "exp":
+        return [f32(math.exp(x[0]))]
+    if f == "pow":
+        if (x[0] < 0 and x[1] != int(x[1])) or (x[0] == 0 and x[1] < 0):
+            raise Skip()
+        return [f32(math.pow(x[0], x[1]))]
+    if f == "sin":
+        return [f32(math.sin(math.radians(x[0])))]
+    if f == "cos":
+        return [f32(math.cos(math.radians(x[0])))]
+    if f == "tan":
+        if abs(math.cos(math.radians(x[0]))) < 1e-3:
+            raise Skip()
+        return [f32(math.tan(math.radians(x[0])))]
+    if f in ("asin", "acos"):
+        if abs(x[0]) > 1:
+            raise Skip()
+        return [f32(math.degrees(math.asin(x[0]) if f == "asin" else math.acos(x[0])))]
+    if f == "atan":
+        return [f32(math.degrees(math.atan(x[0])))]
+    if f == "randint":
+        if x[0] != x[1] or x[0] != int(x[0]):
+            raise Skip()          # only the degenerate range has a determined value
+        return [x[0]]
+    if f == "divmod":
+        if x[1] <= 0:
+            raise Skip()
+        q = math.floor(x[0] / x[1])
+        return [float(q), f32(x[0] - q * x[1])]
+    if f in ("min", "max", "mean"):
+        if not x:
+            raise Skip()
+        return [min(x)] if f == "min" else [max(x)] if f == "max" else [f32(sum(x) / n)]
+    if f == "sum":
+        return [f32(sum(x))]
+    if f == "product":
+        r = 1.0
+        for v in x:
+            r = f32(r * v)
+        return [r]
+    if f == "clamp":
+        if x[1] > x[2]:
+            raise Skip()
+        return [max(x[1], min(x[2], x[0]))]
+    if f == "mix":
+        return [f32(x[0] * (1 - x[2]) + x[1] * x[2])]
+    if f == "if":
+        return [x[1] if x[0] != 0 else x[2]]
+    if f == "not":
+        return b(x[0] == 0)
+    if f in ("eq", "ne", "lt", "le", "gt", "ge"):
+        return b({"eq": x[0] == x[1], "ne": x[0] != x[1], "lt": x[0] < x[1], "le": x[0] <= x[1], "gt": x[0] > x[1], "ge": x[0] >= x[1]}[f])
+    if f == "and":
+        return b(x[0] != 0 and x[1] != 0)
+    if f == "or":
+        return b(x[0] != 0 or x[1] != 0)
+    if f == "xor":
+        return b((x[0] != 0) != (x[1] != 0))
+    if f == "swap":
+        return [x[1], x[0]]
+    if f == "r2p":
+        return [f32(math.hypot(x[0], x[1])), f32(math.degrees(math.atan2(x[1], x[0])))]
+    if f == "p2r":
+        return [f32(x[0] * math.cos(math.radians(x[1]))), f32(x[0] * math.sin(math.radians(x[1])))]
+    if f == "select":
+        if n < 1 or x[0] != int(x[0]) or not (0 <= int(x[0]) < n - 1):
+            raise Skip()
+        return [x[1 + int(x[0])]]
+    if f in ("addv", "subv"):
+        if n % 2:
+            raise Skip()
+        h = n // 2
+        return [f32(x[i] + x[h + i]) if f == "addv" else f32(x[i] - x[h + i]) for i in range(h)]
+    if f == "scalev":
+        if n < 2:     # a vector has at least one component
+            raise Skip()
+        return [f32(x[0] * v) for v in x[1:]]
+    if f == "in":
+        if n < 1:
+            raise Skip()
+        return b(x[0] in x[1:])
+    raise ValueError(f)
 
 
 def text_of(toks, rnd):
@@ -145,14 +223,28 @@ def text_of(toks, rnd):
     return "".join(out)
 
 
-def close(got, exp):
-    if math.isnan(exp) or math.isinf(exp):
-        return None
+def close1(got, exp):
+    if isinstance(exp, str):
+        return got == "'" + exp + "'"
     try:
         g = float(got)
     except ValueError:
         return False
     return abs(g - exp) <= 0.0015 + 2e-5 * abs(exp)
+
+
+def close(got, exp):
+    """got: printed value; exp: list of items.  None: not comparable (inf / nan)"""
+    if any((not isinstance(v, str)) and (math.isnan(v) or math.isinf(v)) for v in exp):
+        return None
+    parts = got.split(", ") if got != "" else []
+    if len(parts) != len(exp):
+        return False
+    return all(close1(g, e) for g, e in zip(parts, exp))
+
+
+def scalar(exp):
+    return len(exp) == 1 and not isinstance(exp[0], str)
 
 
 def run(rep, tier, seed):
@@ -171,12 +263,23 @@ def run(rep, tier, seed):
     if not rb.ok:
         raise vlib.ToolError(f"Expr.tla (bad): {rb.violated}: specification error")
     rep.add_tlc(rb, "Expr.tla family bad: malformed strings have no parse / wrong arity")
-    limit = 60000 if big else 12000
+    limit = 60000 if big else 14000
     if len(good) > limit:
-        calls = [g for g in good if g["tree"]["op"] == "call" or "(" in g["toks"][:2]]
-        rest = [g for g in good if g not in calls] if len(good) < 20000 else good
+        # stratified: every function keeps its share, the arithmetic trees fill the rest
+        by = {}
+        for g in good:
+            key = g["tree"]["v"] if g["tree"]["op"] == "call" else "-"
+            by.setdefault(key, []).append(g)
+        per = max(60, (limit // 2) // max(1, len(by) - 1))
+        sel = []
+        for key, l in sorted(by.items()):
+            if key == "-":
+                continue
+            rnd.shuffle(l)
+            sel += l[:per]
+        rest = by.get("-", [])
         rnd.shuffle(rest)
-        good = calls[:limit // 3] + rest[:limit - min(len(calls), limit // 3)]
+        good = sel + rest[:max(0, limit - len(sel))]
     envs = [{"a": "4", "b": "3"}, {"a": "-1.5", "b": "3"}, {"a": "0.25", "b": "3"}]
     cases = []
     for j, g in enumerate(good):
@@ -185,7 +288,7 @@ def run(rep, tier, seed):
             exp = ev(g["tree"], env)
         except Skip:
             continue
-        if math.isnan(exp) or math.isinf(exp):
+        if close("", exp) is None:
             continue
         txt = text_of(g["toks"], random.Random(rnd.random()))
         cases.append({"k": f"c14-{j}", "op": "evalattr", "vars": [[k, v] for k, v in env.items()], "expr": "{{" + txt + "}}",
@@ -206,12 +309,28 @@ def run(rep, tier, seed):
             rep.traces += 1
         if i % 2999 == 0:
             rep.sample({"expr": c["txt"], "env": c["env"], "expected": c["exp"], "got": rr.get("out")})
+    # vacuity guard: every built-in function (random() is covered by the rng part) was compared
+    per_fn = {}
+    for c in cases:
+        def walk(t):
+            if t["op"] == "call":
+                per_fn[t["v"]] = per_fn.get(t["v"], 0) + 1
+            for a in t["a"]:
+                walk(a)
+        walk(c["tree"])
+    all_fns = ("abs ceil floor fract sign divmod sqrt log exp pow sin cos tan asin acos atan randint min max sum product mean clamp mix "
+               "eq ne lt le gt ge if not and or xor swap r2p p2r select addv subv scalev head tail empty count in split splitw trim join").split()
+    missing = [f for f in all_fns if not per_fn.get(f)]
+    rep.notes["functions_compared"] = per_fn
+    if missing:
+        raise vlib.ToolError(f"no compared case for functions {missing}")
     # the same through documents, in several attribute contexts
     ctxs = [lambda e: f'<svg><var a="{{a}}" b="{{b}}"/><rect id="s" wh="2" data-v="{{{{{e}}}}}"/></svg>',
             lambda e: f'<svg><var a="{{a}}" b="{{b}}"/><var z="{{{{{e}}}}}"/><rect id="s" wh="2" data-v="$z"/></svg>',
             lambda e: f'<svg><g a="{{a}}" b="{{b}}"><rect id="s" wh="2" data-v="{{{{1 + 1, {e}}}}}"/></g></svg>',
             lambda e: f'<svg><var a="{{a}}" b="{{b}}"/><rect wh="9" text="{{{{{e}}}}}"/></svg>']
-    dsel = rnd.sample(cases, min(len(cases), 4000 if big else 800))
+    scal = [c for c in cases if scalar(c["exp"])]
+    dsel = rnd.sample(scal, min(len(scal), 4000 if big else 800))
     dcases = []
     for j, c in enumerate(dsel):
         ci = j % len(ctxs)
